@@ -8,10 +8,16 @@ Proof. exact all_sites_safe. Qed.
 Print Assumptions C17_all_sites_safe.
 
 Theorem C17_no_site_leaks :
-  forall s ev, In s sites -> log_client_ip ev = false ->
+  forall s ev, In s sites -> env_ok s ev = true -> log_client_ip ev = false ->
     has_addr (output default_level s ev) = false.
 Proof. exact no_site_leaks. Qed.
 Print Assumptions C17_no_site_leaks.
+
+(* every error that a default-level site of the table logs without the sanitiser comes from a
+   producer that is address-free by construction — for EVERY producer kind, not just relay I/O *)
+Theorem C17_table_raw_producers_address_free : forallb raw_producers_ok sites = true.
+Proof. exact all_raw_producers_address_free. Qed.
+Print Assumptions C17_table_raw_producers_address_free.
 
 (* the level order of pkg/station/log (regenerated): Info is ABOVE Error, so Infof prints at the default level *)
 Theorem C17_level_order :
